@@ -94,6 +94,12 @@ def run(tier, v):
     for crate in ("tcp", "uni", "http", "tls"):
         for cap in (1, 8):
             scen.append({"crate": crate, "kind": "random", "n": 2, "len": 60, "cap": cap, "conns": many, "server": False, "timestamps": True})
+    # ... and every one of them completes an exchange: a request and a response head whose every value (path, host, agent, languages,
+    # cookie, referer, a header NAME) occurs on this connection only -- nothing may be remembered per distinct value seen
+    for crate in ("http", "uni"):
+        for cap in (1, 8):
+            scen.append({"crate": crate, "kind": "http_unique", "script": [{"dir": "c", "kind": "http_unique_req", "n": 1}, {"dir": "s", "kind": "http_unique_resp", "n": 1}], "port": 80,
+                         "n": 0, "len": 1400, "cap": cap, "conns": many, "server": False, "timestamps": cap == 8, "serial": True})
     scen.append({"crate": "tcp", "kind": "random", "n": nseg // 4, "len": 200, "cap": 4, "conns": 4, "server": False, "timestamps": True})
     scen.append({"crate": "uni", "kind": "tls_appdata", "n": nseg // 4, "len": 200, "cap": 4, "conns": 4, "server": True, "timestamps": True})
     for i, s in enumerate(scen):
